@@ -13,7 +13,10 @@ def open_signatures(pid):
     sigs = {}
     if os.path.exists(p):
         for k in json.load(open(p)).get("findings", []):
-            if k.get("status") == "open" and k.get("signature") and (k.get("property") == pid or pid in k.get("also", [])):
+            # every open MAC-level finding is a deviation the trace spec may follow (a history that runs
+            # into it ends there); it is REPORTED only by the checks of the properties it violates
+            if k.get("status") == "open" and k.get("signature"):
+                k = dict(k, mine=(k.get("property") == pid or pid in k.get("also", [])))
                 sigs[k["signature"]] = k
     return sigs
 
@@ -88,7 +91,7 @@ def report(rep, pid, res, sigs, what):
     for r in res:
         for t in r["known"]:
             m = _KNOWN.match(t)
-            if m and m.group(2) in sigs:
+            if m and m.group(2) in sigs and sigs[m.group(2)]["mine"]:
                 k = sigs[m.group(2)]
                 rep.known_finding(f"[{k['id']}] {k['line'][:400]}")
         if r["accepted"]:
